@@ -33,6 +33,11 @@ def key_of(c):
         for v in c["vs"]) + "]"
 
 
+def val(t, n):
+    """a value of field type t tagged n: A(n), B(n), and for the one-element TUPLE type `(A,)` the tuple (A(n),)"""
+    return f"(A({n}),)" if t == "(A,)" else f"{t}({n})"
+
+
 def tyname(t, c, i, j):
     """field type text; with `generic`, the first field of the first non-unit variant is the parameter T"""
     return t
@@ -81,7 +86,7 @@ def build(c, key):
         if v["ign"]:
             ign = "".join(f"#[{a}(ignore)] " for a, d in [("is_variant", "IsVariant"), ("unwrap", "Unwrap"),
                                                         ("try_unwrap", "TryUnwrap"), ("try_into", "TryInto")] if d in derives)
-        fv = [f"{t}({10 * (i + 1) + j})" for j, t in enumerate(v["tys"])]
+        fv = [val(t, 10 * (i + 1) + j) for j, t in enumerate(v["tys"])]
         if v["k"] == "unit":
             decls.append(f"{ign}{nm}")
             vals.append(f"E::{nm}")
@@ -160,7 +165,7 @@ def build(c, key):
             if "Unwrap" not in derives:
                 continue
             ok = c["unwrap"][a][x] == "ok"
-            fvals = ", ".join(f"{t}({10 * (x + 1) + j})" for j, t in enumerate(vx["tys"]))
+            fvals = ", ".join(val(t, 10 * (x + 1) + j) for j, t in enumerate(vx["tys"]))
             want_dbg = "()" if n == 0 else (fvals if n == 1 else f"({fvals})")
             # owned
             body.append(f'rows.push(format!("unwrap {a} {x} {{}}", match std::panic::catch_unwind(|| {{ let f = vals[{a}].clone().unwrap_{sn}(); format!("{{:?}}", f) }}) {{ Ok(s) => s, Err(_) => String::from("panic") }}));')
@@ -181,12 +186,12 @@ def build(c, key):
                     text_rows(a, x, "ref", sn, "_ref")
                     text_rows(a, x, "ref_mut", sn, "_mut")
                 # mutable form: a write through it is visible in the value
-                setv = "*r = " + f"{vx['tys'][0]}(99);" if n == 1 else f"*r.0 = {vx['tys'][0]}(99);"
+                setv = f"*r = {val(vx['tys'][0], 99)};" if n == 1 else f"*r.0 = {val(vx['tys'][0], 99)};"
                 first_pat = pats[x]
                 body.append(f'rows.push(format!("unwrap_mut {a} {x} {{}}", match std::panic::catch_unwind(|| {{ let mut m = vals[{a}].clone(); {{ let r = m.unwrap_{sn}_mut(); {setv} }} match &m {{ {first_pat} => format!("{{:?}}", f0), _ => String::from("?") }} }}) {{ Ok(s) => s, Err(_) => String::from("panic") }}));')
-                exp.append(f"unwrap_mut {a} {x} {(vx['tys'][0] + '(99)') if ok else 'panic'}")
+                exp.append(f"unwrap_mut {a} {x} {val(vx['tys'][0], 99) if ok else 'panic'}")
                 body.append(f'rows.push(format!("try_unwrap_mut {a} {x} {{}}", {{ let mut m = vals[{a}].clone(); let before = ad(&m); let res = match m.try_unwrap_{sn}_mut() {{ Ok(r) => {{ {setv} String::from("ok") }}, Err(e) => String::from(if ad(&*e.input) == before {{ "err_same" }} else {{ "err_changed" }}) }}; if res == "ok" {{ match &m {{ {first_pat} => format!("{{:?}}", f0), _ => String::from("?") }} }} else if m == vals[{a}] {{ res }} else {{ String::from("err_modified") }} }}));')
-                exp.append(f"try_unwrap_mut {a} {x} {(vx['tys'][0] + '(99)') if ok else 'err_same'}")
+                exp.append(f"try_unwrap_mut {a} {x} {val(vx['tys'][0], 99) if ok else 'err_same'}")
         # TryInto: every target type
         for T in (c["targets"] if "TryInto" in derives else []):
             n = len(T)
@@ -194,7 +199,7 @@ def build(c, key):
             rt = "()" if n == 0 else ("&" + T[0] if n == 1 else "(" + ", ".join("&" + t for t in T) + ")")
             ok = list(T) in [list(t) for t in c["okTargets"][a]]
             live = [j - 1 for j in c["liveIdx"][a]]
-            fvals = ", ".join(f"{va['tys'][j]}({10 * (a + 1) + j})" for j in live)
+            fvals = ", ".join(val(va['tys'][j], 10 * (a + 1) + j) for j in live)
             want_dbg = "()" if n == 0 else (fvals if n == 1 else f"({fvals})")
             tk = "".join(T) or "unit"
             body.append(f'rows.push(format!("try_into {a} {tk} {{}}", match <{tt}>::try_from(vals[{a}].clone()) {{ Ok(f) => format!("{{:?}}", f), Err(e) => String::from(if e.input == vals[{a}] {{ "err_same" }} else {{ "err_changed" }}) }}));')
@@ -212,11 +217,11 @@ def build(c, key):
                 body.append(f'rows.push(format!("try_into_ref {a} {tk} {{}}", match <{rt}>::try_from(&vals[{a}]) {{ Ok(r) => {{ let want = {want_expr}; String::from(if vec![{addr_r}] == want {{ "same" }} else {{ "other" }}) }}, Err(e) => String::from(if ad(e.input) == ad(&vals[{a}]) {{ "err_same" }} else {{ "err_changed" }}) }}));' if ok or True else "")
                 exp.append(f"try_into_ref {a} {tk} {'same' if ok else 'err_same'}")
                 mt = "&mut " + T[0] if n == 1 else "(" + ", ".join("&mut " + t for t in T) + ")"
-                setm = f"*r = {T[0]}(98);" if n == 1 else f"*r.0 = {T[0]}(98);"
+                setm = f"*r = {val(T[0], 98)};" if n == 1 else f"*r.0 = {val(T[0], 98)};"
                 okread = (f'match &m {{ {pats[a]} => format!("{{:?}}", f{live[0]}), _ => String::from("?") }}' if ok
                           else 'String::from("unexpected_ok")')
                 body.append(f'rows.push(format!("try_into_mut {a} {tk} {{}}", {{ let mut m = vals[{a}].clone(); let before = ad(&m); let res = match <{mt}>::try_from(&mut m) {{ Ok(r) => {{ {setm} String::from("ok") }}, Err(e) => String::from(if ad(&*e.input) == before {{ "err_same" }} else {{ "err_changed" }}) }}; if res == "ok" {{ {okread} }} else if m == vals[{a}] {{ res }} else {{ String::from("err_modified") }} }}));')
-                exp.append(f"try_into_mut {a} {tk} {(T[0] + '(98)') if ok else 'err_same'}")
+                exp.append(f"try_into_mut {a} {tk} {val(T[0], 98) if ok else 'err_same'}")
     # only the listed reference forms exist (no attribute: the owned form)
     FORM_OF = {"unwrap": "owned", "try_unwrap": "owned", "try_into": "owned", "unwrap_ref": "ref", "try_unwrap_ref": "ref",
                "try_into_ref": "ref", "text_unwrap": "owned", "text_try_unwrap": "owned", "text_unwrap_ref": "ref",
